@@ -189,7 +189,7 @@ def run(ctx):
     violations = 0
 
     # ---- K-chanseq on C19 pipelines ----------------------------------------------
-    n_corr = 1500 if thorough else 250
+    n_corr = 3000 if thorough else 250
     corr_cases = []
     for _ in range(n_corr):
         reqs = H.gen_pipeline(rng)
@@ -216,7 +216,7 @@ def run(ctx):
                "" if corr_ok else "disagreements or unmodelled cases")
 
     # ---- sequential search ----------------------------------------------------------
-    n_seq = 12000 if thorough else 2500
+    n_seq = 30000 if thorough else 2500
     seq_stats = collections.Counter()
     kinds_seen = collections.Counter()
     nontrivial = set()
@@ -293,7 +293,7 @@ def run(ctx):
                     model_schedules.add(_h(choices))
         return probs
 
-    n_rand = 60 if thorough else 20          # schedules per scenario and policy family
+    n_rand = 100 if thorough else 20          # schedules per scenario and policy family
     for name, kinds, mode, la in WORLD_SCENARIOS:
         for variant in range(2):
             reqs = scenario_reqs(kinds, rng)
@@ -316,7 +316,7 @@ def run(ctx):
                 w, v = world_case(reqs, script, la, nw, bf, policy=pol, granularity="attrs", max_steps=8000)
                 judge(reqs, script, waited, la, nw, bf, "attrs", w, v, do_conf=False)
     # generated pipelines (including the class of the former F5/F6) under random schedules
-    n_gen = 2500 if thorough else 400
+    n_gen = 5000 if thorough else 400
     for it in range(n_gen):
         reqs = H.gen_pipeline(rng, allow_kf=(it % 4 == 0), n=rng.choice([2, 2, 3]))
         mode = rng.choice(["same_read", "later_read"])
@@ -329,7 +329,7 @@ def run(ctx):
         w, v = world_case(reqs, script, la, nw, bf, policy=pol)
         judge(reqs, script, waited, la, nw, bf, "locks", w, v)
     # bounded exhaustive exploration of the smallest scenario
-    ex_limit = 5000 if thorough else 700
+    ex_limit = 8000 if thorough else 700
     ex_reqs = [H.Req(0, "get"), H.Req(1, "expect_cl", b"xy")]
     ex_script, ex_waited = H.world_script(ex_reqs, "same_read")
 
